@@ -77,8 +77,8 @@ CHECKS = {
             "labels, conjunction, zero fill, arg-max along freq) which is exactly 'largest interior strict local maximum, "
             "else 0'; NaN guards in the kernels; the data path of the peak direction; gamma's density source (one known "
             "finding).",
-            "the parabola vertex position, ties between equal peaks and alpha's fitted value are numeric and not decided.",
-            "custom ast rules: reaching-definition data-flow + comparison-only (finite ordering) analysis of the locator",
+            "that the parabola vertex lies between the neighbouring bins (a numeric fact about the sampled values), ties between equal peaks and alpha's fitted value are not decided; the vertex FORMULA is (rational-function identity against the Lagrange form).",
+            "custom ast rules: reaching-definition data-flow + comparison-only (finite ordering) analysis of the locator + exact rational-function normal form (polynomial arithmetic over Fractions) of the value returned by npstats.tps",
             "DESIGN.md section 4 C02"),
     "C03": (True, "other",
             "Path enumeration through each watershed kernel's partition loop proves that every (disjoint) watershed part is "
@@ -231,7 +231,7 @@ CHECKS = {
             "sorting gathering labels and data by the same permutation. Also: per-record buffers allocated per iteration; reader classes memoise only construction-time state; read_swanow gives precedence to the newer file.",
             "parsing correctness (column order, header variants, timestamp parsing, multi-file concatenation) lives in runtime "
             "file contents and is NOT decided; this is the thinnest of the claimed checks.",
-            "custom ast structural rules (constant folding, guard/branch pairing, exact-form checks) + shared spreading rules",
+            "custom ast structural rules (constant folding, guard/branch pairing, exact-form checks) + shared spreading rules + rational-function comparison of an arithmetic progression's start / step / count with the header values",
             "DESIGN.md section 4 C13"),
 }
 
@@ -261,6 +261,24 @@ ROUND3 = {
 
 
 # clauses added after the fourth round (DESIGN.md section 10.3)
+ROUND5 = {
+    "C01": "Reductions in the numpy twins take literal axes; the mean direction's outermost modulo (precedence included).",
+    "C02": "npstats.tps returns 1 / vertex of the three-point parabola on every path, decided as a rational-function identity (sub-case shortcuts under their own condition); every xrstats peak statistic goes through its npstats kernel.",
+    "C04": "GIL held around partition(); ihmax and the other ptm3 parameters reach the watershed (no unused parameter, operands in the slots they are named after); the step-2 candidate test decided by truth table whatever comparison operator it uses.",
+    "C05": "assign_coords never stamps another labelled object's coordinates onto data; the SWAN writer fixes the full named axis order.",
+    "C06": "GIL held around partition(); every apply_ufunc aligns by label (default join) and forwards operands in the slots of the kernel parameters they are named after.",
+    "C09": "Deep-water celerity only without a depth (shared with C01).",
+    "C10": "No narrowing cast after the last modulo 360 (found and repaired: npstats.dpm returned 360.0); dp's arg-max on the stored order and the full-precision peak locator (shared with C02).",
+    "C11": "SWAN writer: NODATA decided on a NaN-propagating reduction; each block written with the time stamps of the same positions; frequencies printed with >= 5 decimals.",
+    "C12": "Conversion factors are unconditional (no run-time 'already in degrees?' heuristic); the dispatcher's identifying sets are followed to module level.",
+    "C13": "TRIAXYS frequency axis = f0 + k df, k < nf, decided as a rational-function identity; epoch time stamps converted with an explicit time zone; Spotter positions stay per record.",
+    "C14": "The bbox tolerance widens all four sides (parallel assignments included); the idw combination uses no NaN-skipping reduction.",
+    "C15": "The effective under_90 of every cartwright() call is False.",
+    "C16": "The rolling mean is not evaluated block by block unless both windowed dimensions are single chunks; its result is not cast to the input's dtype.",
+    "C17": "DataArray.rename(name) shares the Variable; isinstance narrows a parameter's kind (attrs of a DataArray live on its Variable).",
+    "C19": "Tracking tolerances reach the kernel in the slots of the parameters they are named after.",
+    "C20": "getattr-by-name results are called only under callable() with ValueError otherwise; elements of difference vectors are subscripted only under a length test; no function-scope static in specpart.c; the counting sort of ptsort is recognised structurally (its slot bound stays a stated assumption).",
+}
 ROUND4 = {
     "C01": "stats() with band limits = statistics of one split spectrum; Stokes-drift components related by theta - 90; wavenumber polynomial checked by coefficient / power pairing.",
     "C02": "Peak parameters through stats() come from the split spectrum; no peak parameter masked by an absolute energy threshold; a one-frequency tail window keeps its frequency.",
@@ -297,7 +315,7 @@ def main():
                 "evidence_file": f"/verif/evidence/{pid}.json",
                 "replay_cmd_template": f"./vcheck {pid} --explain 0  # replay file: {{path}}",
                 "engine": "vsa",
-                "level_claimed": {"category": c[1], "text": (c[2] + " " + ROUND3.get(pid, "") + (" Round 4: " + ROUND4[pid] if pid in ROUND4 else "")).strip(), "design_ref": c[5]},
+                "level_claimed": {"category": c[1], "text": (c[2] + " " + ROUND3.get(pid, "") + (" Round 4: " + ROUND4[pid] if pid in ROUND4 else "") + (" Round 5: " + ROUND5[pid] if pid in ROUND5 else "")).strip(), "design_ref": c[5]},
                 "level_note": COMMON_TRUST + c[3],
                 "technique": c[4],
             })
